@@ -67,7 +67,27 @@ def main():
         seed = int(os.environ.get("VERIF_SEED", "0"))
     except ValueError:
         seed = 0
+    # wall-clock budget: an analysis that does not come back (a variant of the code that makes a fixpoint or a path enumeration
+    # explode) is an analysis error, never a hang and never a pass
+    import signal
+    budget = int(os.environ.get("VERIF_MAX_SECONDS", "1500" if a.tier == "quick" else "14400"))
+
+    def _over(signum, frame):
+        print(f"ANALYSIS-ERROR property={a.pid.upper()} budget: no result within {budget} s of wall-clock time")
+        sys.stdout.flush()
+        try:
+            import multiprocessing
+            for ch in multiprocessing.active_children():
+                ch.terminate()
+        finally:
+            os._exit(2)
+
+    if budget > 0 and hasattr(signal, "SIGALRM"):
+        signal.signal(signal.SIGALRM, _over)
+        signal.alarm(budget)
     rc = run_check(a.pid.upper(), a.tier, seed, a.repo, a.only, a.quiet, not a.no_evidence, not a.no_selftest)
+    if hasattr(signal, "SIGALRM"):
+        signal.alarm(0)
     sys.stdout.flush()
     sys.exit(rc)
 
